@@ -141,6 +141,8 @@ def expr_(f, e):
         if fn in ('min', 'max') and len(e.args) == 2 and not e.keywords:      # python min/max of two floats (first argument wins ties)
             a, _ = expr(f, e.args[0], 'Q'); b, _ = expr(f, e.args[1], 'Q')
             return f'({"Qpymin" if fn == "min" else "Qpymax"} {a} {b})', 'Q'
+        if fn == 'float' and len(e.args) == 1 and not e.keywords:      # float(x) of a float: the same number (a fresh, immutable object)
+            a, _ = expr(f, e.args[0], 'Q'); return a, 'Q'
         if fn == 'np.copy' and len(e.args) == 1: return expr_(f, e.args[0])
         if fn == 'np.array' and len(e.args) == 1 and [ast.unparse(k.value) for k in e.keywords if k.arg == 'dtype'] == ['np.double'] \
                 and len(e.keywords) == 1:
